@@ -29,6 +29,7 @@ from .. import core                                 # noqa: E402
 from .. import model as M                           # noqa: E402
 from .. import plugins as PL                        # noqa: E402
 from .. import strategies as S                      # noqa: E402
+from .. import drawer as D_                         # noqa: E402
 from ..core import Property, Violation, HarnessError, FacetResult   # noqa: E402
 from .. import run as RUN                           # noqa: E402
 from .c05 import corruption_case, damage            # noqa: E402
@@ -37,7 +38,8 @@ PROP = Property(
     'C19', 'exploration',
     rule=('Generated histories (Hypothesis rule-based state machine, <= 12 steps quick / <= 30 thorough) over a pool of '
           'PELs - well-formed (all section kinds, creators O/B/K/M/H, SRCs with registry hits, callouts with '
-          'procedures, LP sections), damaged (C05 generators), served by fixture parser modules whose behaviour is a '
+          'procedures, LP sections, I/O-drawer sections with ILOG entries on the order-sensitive patterns of the shipped '
+          'table and trace buffers of shipped strings; siblings of the same creator), damaged (C05 generators), served by fixture parser modules whose behaviour is a '
           'function of their input only (raise ValueError / ImportError, return None, return a digest) - with '
           'operations decode(pel, options), decode_again(earlier), headers(pel), peltool -a / -a -r / -l over a '
           'directory of pool members in-process. The system under test is one long-lived process; the model is the '
@@ -248,8 +250,32 @@ class FixtureEnv:
 # ---------------------------------------------------------------------------
 
 @st.composite
-def pool_pel(draw):
-    creator = draw(st.sampled_from([ord('O'), ord('O'), ord('O'), ord('B'), ord('B'), ord('K'), ord('M'), ord('H')]))
+def drawer_section(draw):
+    """user data of an I/O drawer (component 0x2C00): history log, ILOG whose entries sit on the few table patterns
+    where the order of the shipped table decides the message, trace buffer with strings of the shipped file"""
+    ver = draw(st.sampled_from([1, 1, 1, 2, 2, 9]))
+    sub = draw(st.sampled_from([73, 73, 73, 73, 72, 84, 1]))
+    if sub == 73:
+        pairs = D_.order_sensitive_ptes('mex_pte.h', limit=2)
+        data = b''
+        for _ in range(draw(st.integers(1, 3))):
+            v = draw(st.sampled_from(pairs))[draw(st.integers(0, 1))] if pairs else draw(S.uint(32))
+            data += struct.pack('>HHI', draw(S.uint(16)), draw(S.uint(16)), v)
+    elif sub == 84:
+        from .c15 import shipped_strings
+        strings = shipped_strings('mexStringFile' if ver != 2 else 'nimitzStringFile')
+        pick = [strings[draw(st.integers(0, len(strings) - 1))] for _ in range(3)]
+        data = D_.enc_trace_buffer(draw(D_.trace_buffer(pick, max_entries=3)))
+    else:
+        data = draw(S.payload(24))
+    return {'k': 'UD', 'ver': ver, 'sub': sub, 'comp': 0x2C00, 'data': data}
+
+
+@st.composite
+def pool_pel(draw, creator=None):
+    if creator is None:
+        creator = draw(st.sampled_from([ord('O'), ord('O'), ord('O'), ord('B'), ord('B'), ord('K'), ord('M'), ord('M'),
+                                         ord('H')]))
     kind = draw(st.sampled_from(['rich', 'rich', 'rich', 'damaged', 'plugin-heavy']))
     secs = []
     served = creator in (ord('B'), ord('K'))        # creators with fixture SRC / call-out parsers
@@ -275,6 +301,9 @@ def pool_pel(draw):
                                   wc=draw(st.sampled_from([9, 9, 9, 8, 6, 5, 2, 1])),
                                   flags=1 if cl else 0, callouts=cl))
     n = draw(st.integers(0, 4))
+    if creator == ord('M'):
+        # I/O drawer logs: served by the shipped m2c00 plug-in
+        secs.append(draw(drawer_section()))
     for _ in range(n):
         k = draw(st.sampled_from(['ud-fix', 'ud-fix', 'ed-fix', 'lp', 'eh', 'mt', 'ud-builtin', 'raw', 'ss', 'm2c00']))
         if k == 'ud-fix':
@@ -296,8 +325,7 @@ def pool_pel(draw):
         elif k == 'ss':
             secs.append(draw(S.src_section(primary=False, max_callouts=2)))
         elif k == 'm2c00':
-            secs.append({'k': 'UD', 'ver': draw(st.sampled_from([1, 2, 9])), 'sub': draw(st.sampled_from([72, 73, 84, 1])),
-                         'comp': 0x2C00, 'data': draw(S.payload(24))})
+            secs.append(draw(drawer_section()))
         else:
             secs.append(draw(S.raw_section(max_len=12)))
     pel = draw(S.pel_model(creator=creator, secs=st.just(secs), selectable=draw(st.integers(0, 3)) != 0))
@@ -384,6 +412,12 @@ class HistoryMachine(RuleBasedStateMachine):
     @rule(target=pels, p=pool_pel())
     def add_pel(self, p):
         self.pool.append(p)
+        return len(self.pool) - 1
+
+    @rule(target=pels, i=pels, data=st.data())
+    def add_sibling(self, i, data):
+        # another log of the same creator (same parser modules, tables and name files, other values)
+        self.pool.append(data.draw(pool_pel(creator=ord(self.pool[i]['creator']))))
         return len(self.pool) - 1
 
     @rule(i=pels, cfg=cfg_st)
